@@ -1388,8 +1388,12 @@ def dop_gates(prog: Program, run: Run, R: str, sides: Tuple[str, ...] = ("enc", 
         arg = ast.unparse(c.args[0])
         st = _stmt(d.node, c)
         conds = cfg.branch_conditions(cfg.node_of(st))
-        ok = any(isinstance(t, ast.Call) and call_name(t) == "is_valid_internal_value" and pol and
-                 ast.unparse(t.args[0]) == arg for t, pol in conds)
+        def accepted(t: ast.AST, pol: bool) -> bool:
+            while isinstance(t, ast.UnaryOp) and isinstance(t.op, ast.Not):
+                t, pol = t.operand, not pol
+            return isinstance(t, ast.Call) and call_name(t) == "is_valid_internal_value" and \
+                pol and bool(t.args) and ast.unparse(t.args[0]) == arg
+        ok = any(accepted(t, pol) for t, pol in conds)
         if ok:
             run.ok(R, "DataObjectProperty.decode_from_pdu", "convert_internal_to_physical only "
                    "under is_valid_internal_value(same value)", _loc(d, c))
